@@ -7,6 +7,7 @@ from .. import paths
 from ..core import FUNC, call_attr, calls_in, const, dotted, is_const, kwarg, norm, slice_parts, text, walk_local
 
 EXPLANATION = [
+    "C17.peer-mtu-floor: the MTU taken from a peer's Configure Request is bounded below (max(value, L2CAP minimum)) before it is stored, so AVDTP's and RFCOMM's fragment sizes derived from it stay positive.",
     'C17.records-not-aliased: every local container that a method of sdp.Server modifies in place (+=, append, sort, ...) is bound only to containers the method created (literals, comprehensions, list() / sorted() / copies): a request cannot alias and edit a registered service record.',
     'C17.dm-refuses-open: in Multiplexer.on_dm_frame every path taken while the multiplexer is OPENING changes the state and settles the pending open_result (path rule): a DM cannot be ignored while an open is pending.',
     'C17.except-name: no name bound by `except ... as name` is read after its handler: Python deletes it when the handler ends, so the read raises UnboundLocalError exactly when the exception was caught.',
@@ -1084,7 +1085,37 @@ def records_not_aliased(ctx, rule='C17.records-not-aliased'):
     R.check(n >= 1, rule, 'bumble.sdp.Server | containers modified in place', f'{n} local containers, each created by the handler', f'only {n} found')
 
 
+def peer_mtu_floor(ctx):
+    """The MTU a peer announces in its Configure Request is peer-controlled and the layers above subtract their header sizes
+    from it (AVDTP: 3, RFCOMM: 5) to get a fragment size they loop on.  The stored value is bounded below by a constant
+    larger than those headers, so no fragment size is zero or negative."""
+    R, p = ctx.r, ctx.p
+    rule = 'C17.peer-mtu-floor'
+    fn = p.find('bumble.l2cap.ClassicChannel.on_configure_request')
+    if fn is None:
+        R.bad(rule, 'bumble.l2cap.ClassicChannel.on_configure_request', 'anchor missing')
+        return
+    sts = [x for x in walk_local(fn) if isinstance(x, ast.Assign) and any(dotted(t) == 'self.peer_mtu' for t in x.targets)]
+    R.check(len(sts) >= 1, rule, 'bumble.l2cap.ClassicChannel.on_configure_request | peer_mtu', f'{len(sts)} assignment(s)', 'peer_mtu is not taken from the MTU option here any more', p.loc(fn))
+    for st in sts:
+        v = st.value
+        floor = None
+        if isinstance(v, ast.Call) and dotted(v.func) == 'max':
+            for a in v.args:
+                if isinstance(a, ast.Constant) and isinstance(a.value, int):
+                    floor = a.value
+                elif isinstance(a, ast.Name):
+                    try:
+                        floor = p.module_const('bumble.l2cap', a.id)
+                    except Exception:
+                        pass
+        guarded = [norm(t) for t, pol in paths.flat_guards(st, stop=fn) if 'mtu' in norm(t).lower() and any(op in norm(t) for op in ('>=', '<', '>'))]
+        R.check((floor is not None and floor >= 8) or bool(guarded), rule, f'bumble.l2cap.ClassicChannel.on_configure_request | {norm(st)[:60]}', f'bounded below by {floor}' if floor is not None else f'guarded by {guarded}',
+                'the peer\'s MTU option is stored as it comes: a peer announcing an MTU of 0..3 makes AVDTP compute a fragment size <= 0 and loop for ever on the first response with a payload (RFCOMM likewise computes a frame size of 0)', p.loc(st))
+
+
 RULES = [
+    ('C17.peer-mtu-floor', peer_mtu_floor),
     ('C17.records-not-aliased', records_not_aliased),
     ('C17.dm-refuses-open', dm_refuses_open),
     ('C17.except-name', except_name_rule),
